@@ -501,6 +501,12 @@ def replay_tokens(exe, failures):
                 bad = f"the literal {ints[0]} evaluated to {got.get('result')}"
         elif "error" in got:
             bad = f"a well-formed expression was rejected: {got.get('debug')}"
+        elif len(words) == 5 and words[1] == "?" and words[3] == ":":
+            # c ? x : y with c bound to the (truthy) int 2: the truthiness of c selects x
+            binding = {n: i + 2 for i, n in enumerate(names)}
+            want = f"Int({binding[words[2]]})"
+            if got.get("result", {}).get("ok") != want:
+                bad = f"with {binding} the conditional evaluated to {got.get('result')}, the truthiness of {words[0]} selects {words[2]} = {want}"
         else:
             want = drop_ops(expected_shape(words))
             have = drop_ops(json_shape(got.get("ast")))
